@@ -23,7 +23,7 @@ ASSUMPTIONS = [
     "at a clean end of stream the reader may raise an incomplete-read error (asyncio's or the library's) or return None, never a message",
     "which incomplete-read exception type is raised inside a message is not fixed by the statement: asyncio.IncompleteReadError and the library's IncompleteReadError are both accepted",
 ]
-BUDGET = {"quick": {"examples": 1600, "shrink": 200}, "thorough": {"examples": 64000, "shrink": 1000}}
+BUDGET = {"quick": {"examples": 6400, "shrink": 200}, "thorough": {"examples": 200000, "shrink": 1000}}
 EXHAUSTIVE = "all single and double cut positions of 4 short streams (2-3 messages <= 64 bytes; plain, truncated, corrupted type, length<8)"
 
 PL = [0, 1, 2, 7, 8, 9, 255, 256, 4095, 4096]
